@@ -49,6 +49,7 @@ ASSUMPTIONS = [
 EXPECTED_PROBES = [
     "key_chunked_with_pointers", "fully_monotonic", "monotonic_prefix_used", "key_arrow_chunked", "values_chunked", "blocks_gt1",
     "nested_pool", "completion_order_not_fifo", "consumer_interleaved_with_tasks", "null_keys", "cpu_count_1",
+    "stmt_fault_armed", "preemptive_pools", "tasks_interleaved_inside_bodies", "retry_after_fault", "shared_object_arm", "strategy_before_baseline",
 ]
 
 
